@@ -381,7 +381,17 @@ def method_call(fr, obj, name, args, kwargs):
     raise Unsupported(f"method {name} on {type(obj).__name__}")
 
 
+_ARR_METHOD_KW = {"reshape": {"order"}, "flatten": {"order"}, "ravel": {"order"}, "sum": {"axis"}, "mean": {"axis"}}
+_ARR_METHOD_NOARGS = {"any", "all", "max", "min", "transpose", "conj", "conjugate", "copy", "tolist"}      # modelled without arguments only
+
+
 def arr_method(fr, a, name, args, kwargs):
+    # a keyword the model does not interpret must not be dropped silently (reshape(order="F") once was): refuse it
+    extra = set(kwargs) - _ARR_METHOD_KW.get(name, set())
+    if extra:
+        raise Unsupported(f"ndarray.{name} with keyword(s) {sorted(extra)} outside the model")
+    if name in _ARR_METHOD_NOARGS and args:
+        raise Unsupported(f"ndarray.{name} with arguments outside the model")
     if name == "reshape":
         return N.reshape(a, *args, order=kwargs.get("order", "C"))
     if name in ("flatten", "ravel"):
